@@ -29,8 +29,8 @@ def run(ck):
                 traces.setdefault(f[1], []).append(l)
         for l in lines:
             f = l.split()
-            if l.startswith("propfail ") and f[2] == "c06_forward_intact":
-                ck.fail_input("c06_forward_intact", l, traces.get(f[1], []))
+            if l.startswith("propfail ") and f[2] in ("c06_forward_intact", "c15_forward_link"):
+                ck.fail_input(f[2], l, traces.get(f[1], []))
     ck.rule = rule + "; plus clause c06_forward_intact on broker-connection traces (reactive-subscriber and request families)"
     # whole broker: a publish (and a will) into the publisher's own full queue is refused before anything is changed /
     # skips only the dying publisher's own session (go/cmd/system c06)
